@@ -30,13 +30,25 @@ func (e *enumOps) marshal(v uint64) (string, string, error) {
 		return "", "", fmt.Errorf("type %s does not implement encoding.TextMarshaler", e.reg.Type)
 	}
 	b, err := tm.MarshalText()
+	text := string(b)
+	// the bytes now belong to the caller, who may do with them what it likes (here: blank them out, as code
+	// that reuses its buffers or edits the text for display does); the next conversion says the same as this one
+	for i := range b {
+		b[i] = '#'
+	}
+	if err == nil && len(b) > 0 {
+		again, err2 := tm.MarshalText()
+		if err2 != nil || string(again) != text {
+			return "", "", fmt.Errorf("MarshalText(%d) returned %q; after the caller had overwritten the bytes it was given, the same conversion returns %q (err %v): the result is a view of the library's own table", v, text, again, err2)
+		}
+	}
 	str := ""
 	if s, ok := val.Interface().(fmt.Stringer); ok {
 		str = s.String()
 	} else {
 		return "", "", fmt.Errorf("type %s does not implement fmt.Stringer", e.reg.Type)
 	}
-	return string(b), str, err
+	return text, str, err
 }
 
 // unmarshal parses text into destinations holding different previous values: the result of parsing
